@@ -12,7 +12,7 @@ INFO = {
             "into <=3 (quick) / <=4 (thorough) parts x all 65536 values (sized path exhaustively; streaming path on all values "
             "in thorough, on a 2048-value boundary set in quick); 24..64-bit regions with parts from {1,3,7,8,9,12,15,16,17,24}, "
             "swapped multiples of 8, Flag, Padding, nested Struct/Array, Bytewise islands, on walking/boundary patterns; "
-            "every layout x {sized, streaming} x {parse, build, stream advance}. non-trivial = the implementation returned a value "
+            "every layout x {sized, streaming} x {parse, build, stream advance}; unsized Bytewise islands reading several bytes per request. non-trivial = the implementation returned a value "
             "that was compared with the reference; distinct = distinct (layout, implementation, region value)",
     "bounds": {"quick": {"max_parts_16": 3, "values_16": "boundary set"},
                "thorough": {"max_parts_16": 4, "values_16": "all 65536"}},
@@ -53,6 +53,21 @@ def ref_parse_member(m, bits, pos):
     if k == "bwb":
         v, p = ref_parse_member(["int", 8, False, False], bits, pos)
         return bytes([v]), p
+    if k == "bwpre":
+        # byte-oriented island of no static size read in ONE multi-byte request: a length byte, then that many bytes
+        n, pos = ref_parse_member(["int", 8, False, False], bits, pos)
+        out = bytearray()
+        for _ in range(n):
+            v, pos = ref_parse_member(["int", 8, False, False], bits, pos)
+            out.append(v)
+        return bytes(out), pos
+    if k == "bwarr":
+        n, pos = ref_parse_member(["int", 8, False, False], bits, pos)
+        out = []
+        for _ in range(n):
+            v, pos = ref_parse_member(["int", 16, False, True], bits, pos)
+            out.append(v)
+        return out, pos
     if k == "bwvar":
         acc, shift = 0, 0
         while True:
@@ -99,6 +114,16 @@ def ref_build_member(m, v):
         return ref_build_member(["int", 16, False, True], v)
     if k == "bwb":
         return int_bits(v[0], 8)
+    if k == "bwpre":
+        out = int_bits(len(v), 8)
+        for b in v:
+            out += int_bits(b, 8)
+        return out
+    if k == "bwarr":
+        out = int_bits(len(v), 8)
+        for e in v:
+            out += ref_build_member(["int", 16, False, True], e)
+        return out
     if k == "bwvar":
         out = []
         while True:
@@ -184,6 +209,10 @@ def mk_member(m, prefix="f"):
         return C.Bytewise(C.Bytes(1))
     if k == "bwvar":
         return C.Bytewise(C.VarInt)
+    if k == "bwpre":
+        return C.Bytewise(C.Prefixed(C.Byte, C.GreedyBytes))
+    if k == "bwarr":
+        return C.Bytewise(C.PrefixedArray(C.Byte, C.Int16ul))
     if k == "struct":
         return C.Struct(*[("g%d" % i) / mk_member(mm) for i, mm in enumerate(m[1])])
     if k == "array":
@@ -401,6 +430,10 @@ VAR_SPECIAL = [
     [["int", 4, False, False], ["bwvar"], ["int", 4, True, False]],
     [["bwvar"], ["int", 8, False, False]],
     [["flag"], ["int", 7, False, False], ["bwvar"]],
+    [["int", 4, False, False], ["bwpre"], ["int", 4, True, False]],
+    [["bwpre"], ["int", 8, False, False]],
+    [["int", 3, False, False], ["int", 5, False, False], ["bwarr"], ["flag"], ["int", 7, False, False]],
+    [["bwpre"], ["bwarr"]],
 ]
 S7 = [0x00, 0x01, 0x02, 0x7f, 0x80, 0x81, 0xff]
 
@@ -471,6 +504,11 @@ def run_unit(unit, tier):
         for n in (1, 2, 3, 4):
             for t in itertools.product(S7, repeat=n):
                 datas.append(bytes(t))
+        if any(m[0] in ("bwpre", "bwarr") for m in layout):
+            # length bytes (aligned and straddling a nibble) that make the island 0..3 units long
+            for n in (2, 3, 4, 5):
+                for t in itertools.product([0x00, 0x02, 0x03, 0x10, 0x20, 0x30, 0xab], repeat=n):
+                    datas.append(bytes(t))
         run_layout(layout, datas, r, impl="streaming")
     elif k == "errors":
         run_errors(r)
